@@ -9,6 +9,7 @@ import (
 	"path/filepath"
 	"runtime/debug"
 	"sort"
+	"strconv"
 	"sync"
 	"testing"
 
@@ -209,7 +210,7 @@ func RunProp[C any](t *testing.T, id, part string, gen func(*rapid.T) C, check f
 	}
 
 	// committed regression cases
-	if dir := os.Getenv("VERIF_REGRESS"); dir != "" && shardLabel() == "0" {
+	if dir := os.Getenv("VERIF_REGRESS"); dir != "" && shardIndex() == 0 {
 		files, _ := filepath.Glob(filepath.Join(dir, id, part+".*.json"))
 		sort.Strings(files)
 		for _, f := range files {
@@ -233,6 +234,75 @@ func RunProp[C any](t *testing.T, id, part string, gen func(*rapid.T) C, check f
 			rt.Fatalf("%v", err)
 		}
 	})
+}
+
+// RunEnum is RunProp for a finite enumeration: enum yields every case of the
+// shard (the caller shards by VERIF_SHARD_INDEX / VERIF_NSHARDS).
+func RunEnum[C any](t *testing.T, id, part string, enum func(yield func(C) bool), check func(C, *Obs) error) {
+	st := newStats(id, part)
+	defer st.flush()
+	runOne := func(c C) error {
+		js, jerr := json.Marshal(c)
+		if jerr != nil {
+			t.Fatalf("harness: case not serialisable: %v", jerr)
+		}
+		o := &Obs{fp: fingerprint(js)}
+		err := safeCheck(check, c, o)
+		st.commit(o, js)
+		if err != nil {
+			writeFail(id, part, t.Name(), js, err)
+		}
+		return err
+	}
+	if os.Getenv("VERIF_MODE") == "replay" {
+		c, err := loadCase[C](os.Getenv("VERIF_CASE"))
+		if err != nil {
+			t.Fatalf("harness: %v", err)
+		}
+		if err := runOne(c); err != nil {
+			t.Fatalf("replay %s: %v", os.Getenv("VERIF_CASE"), err)
+		}
+		return
+	}
+	if dir := os.Getenv("VERIF_REGRESS"); dir != "" && shardIndex() == 0 {
+		files, _ := filepath.Glob(filepath.Join(dir, id, part+".*.json"))
+		sort.Strings(files)
+		for _, f := range files {
+			c, err := loadCase[C](f)
+			if err != nil {
+				t.Fatalf("harness: %v", err)
+			}
+			if err := runOne(c); err != nil {
+				t.Fatalf("regression case %s: %v", f, err)
+			}
+		}
+	}
+	var first error
+	enum(func(c C) bool {
+		if err := runOne(c); err != nil {
+			first = err
+			return false
+		}
+		return true
+	})
+	if first != nil {
+		t.Fatalf("%v", first)
+	}
+}
+
+// shardIndex / shardCount give the position of this process among the shards
+// of an enumeration.
+func shardIndex() int {
+	n, _ := strconv.Atoi(os.Getenv("VERIF_SHARD_INDEX"))
+	return n
+}
+
+func shardCount() int {
+	n, _ := strconv.Atoi(os.Getenv("VERIF_NSHARDS"))
+	if n < 1 {
+		n = 1
+	}
+	return n
 }
 
 func loadCase[C any](path string) (C, error) {
